@@ -909,6 +909,64 @@ def event_flags_rule(ctx):
     return obs
 
 
+def wave8_rules(ctx):
+    """obligations added after the eighth wave of seeded changes"""
+    import absint as ai
+    import prectables as pt
+    ob = ctx.ob
+    tc = ctx.tc
+    obs = []
+    # (1) a value used as the condition of an emitted `c?i:..` chain is parenthesised exactly when it is itself a conditional or
+    #     looser: the predicate is tabulated over all levels of ExpressionLevel (their order read from the enum)
+    order = pt.level_order(tc)
+    preds = [f for f in tc.fns if f.body and f.ret == "bool" and f.module[:2] == ["proc_gen", "expr"] and len(f.param_names()) == 1
+             and any(x.get("k") == "path" and len(x["segs"]) == 2 and x["segs"][0] == "ExpressionLevel" for x in sir.walk(f.body))]
+    for f in preds:
+        if "Cond" not in order:
+            break
+        rank = {v: i for i, v in enumerate(order)}
+
+        def hooks(it, e, st):
+            if e.get("k") == "field" and e["name"] == "level":
+                return [(st.env.get("$level", ai.UNK), st)]
+            if e.get("k") == "path" and len(e["segs"]) == 2 and e["segs"][0] == "ExpressionLevel" and e["segs"][1] in rank:
+                return [(rank[e["segs"][1]], st)]
+            return None
+        wrong, und = [], False
+        for v in order:
+            it = ai.Interp(hooks=hooks, idx=tc)
+            outs = it.run(f.body, {"self": ai.FREE, "$level": rank[v]})
+            vals = set(o.value for o in outs)
+            if len(vals) != 1 or not (True in vals or False in vals) or any(o.tainted for o in outs):
+                und = True
+                continue
+            want = rank[v] >= rank["Cond"]
+            if (True in vals) != want:
+                wrong.append("%s -> %s" % (v, True in vals))
+        if und and not wrong:
+            obs.append(ob("C04.branch/condition-paren/%s" % f.name, None, ctx.where(f), "the predicate is not a comparison of the level with constants: not decided for this tree"))
+        else:
+            obs.append(ob("C04.branch/condition-paren/%s" % f.name, not wrong, ctx.where(f), "true exactly for the levels from Cond upwards (%s)" % order[rank["Cond"]:] if not wrong else "wrong for %s" % wrong,
+                          witness=None if not wrong else "wx:if=\"{{a?b:c}}\" emits `a?b:c?1:0`, which selects by `c`"))
+    # (2) strings of the generated script go through the escaper table (shared with C12 / C02)
+    from rules.c12 import find_escaper, check_escaper, dash_to_camel_table, entity_start_rule
+    ef = find_escaper(tc)
+    if ef is not None:
+        o, _ = check_escaper(ctx, ef, ctx.mir, "glass_easel_template_compiler", "C04.syntax/escaper")
+        obs += o
+    # (3) attribute names are normalised by the automaton of the runtime's dashToCamelCase (shared with C12)
+    obs += dash_to_camel_table(ctx, "C04.normalise")
+    # (4) a named character reference may start with any ASCII letter (shared with C12)
+    obs += entity_start_rule(ctx, "C04.entities")
+    # (5) every value an element carries is visited when scopes are resolved (shared with C07.values)
+    from rules.c07 import values_rule
+    for x in values_rule(ctx):
+        x = dict(x)
+        x["key"] = x["key"].replace("C07.values", "C04.scope/values")
+        obs.append(x)
+    return obs
+
+
 def run(ctx):
     obs = proto_rule(ctx)
     obs += child_lists_rule(ctx)
@@ -930,4 +988,5 @@ def run(ctx):
         x = dict(x)
         x["key"] = x["key"].replace("C02.ident", "C04.syntax/ident")
         obs.append(x)
+    obs += wave8_rules(ctx)
     return obs
